@@ -35,6 +35,10 @@ THEOREMS = [
     "MCHap.C15.reinsert_count",
     "MCHap.C15.restrict_length",
     "MCHap.C15.reinsert_restrict_iff",
+    "MCHap.C15.restrict_reinsert_genotype",
+    "MCHap.C15.reinsert_perm",
+    "MCHap.C15.reinsert_shape",
+    "MCHap.C15.reinsert_fixed_sites",
 ]
 RULE = ("cases: (ploidy, n_base) grids incl. n_base in {127,128,129,200,256,300} for the sweep (recorder and jitted forcing read set); "
         "(breaks, n) with forced draw sequences and jitted random draws for random_breaks; random read sets x thresholds for the "
